@@ -446,8 +446,9 @@ fn environment_cases(ctx: &mut Ctx) {
     use std::os::unix::ffi::OsStrExt;
     let odd = many.join(std::ffi::OsStr::from_bytes(b"b\xff"));
     let _ = std::fs::write(&odd, b"");
-    for final_nul in [true, false] {
-        let mut data = b"n0001\0b\xff\0n0002".to_vec();
+    for (variant, final_nul) in [(0, true), (0, false), (1, true), (1, false), (2, false)] {
+        // the undecodable name in the middle, at the end, alone
+        let mut data = [&b"n0001\0b\xff\0n0002"[..], &b"n0001\0n0002\0b\xff"[..], &b"b\xff"[..]][variant].to_vec();
         if final_nul {
             data.push(0);
         }
@@ -455,10 +456,11 @@ fn environment_cases(ctx: &mut Ctx) {
         ctx.rep.evaluations += 1;
         ctx.rep.nontrivial += 1;
         ctx.rep.count("environment_cases", 1);
-        let walked_all = got.out == b"n0001\0b\xff\0n0002\0" && got.code == Ok(0);
+        let all_names: &[u8] = [&b"n0001\0b\xff\0n0002\0"[..], &b"n0001\0n0002\0b\xff\0"[..], &b"b\xff\0"[..]][variant];
+        let walked_all = got.out == all_names && got.code == Ok(0);
         let refused = got.code.as_ref().is_ok_and(|c| *c != 0) && !got.err.is_empty() && !got.out.windows(2).any(|w| w == b"b\xff");
         if !(walked_all || refused) {
-            ctx.rep.violation("C18 a name in the -files0-from list that is not valid UTF-8 is dropped silently", format!("list n0001\\0b\\xff\\0n0002: printed {:?}, status {:?}, stderr {:?}", String::from_utf8_lossy(&got.out), got.code, String::from_utf8_lossy(&got.err)), json!({"prop":"C18","scale":true}));
+            ctx.rep.violation("C18 a name in the -files0-from list that is not valid UTF-8 is dropped silently", format!("list {:?} (final NUL: {final_nul}): printed {:?}, status {:?}, stderr {:?}", String::from_utf8_lossy(&data), String::from_utf8_lossy(&got.out), got.code, String::from_utf8_lossy(&got.err)), json!({"prop":"C18","scale":true}));
         }
     }
     let _ = std::fs::remove_file(&odd);
